@@ -629,6 +629,25 @@ def signature(prop, case, res, clause):
                 import re as _re
                 if new and _re.search(r"operator\s*\(\s*(\*\*|//|==|/=|<=|>=|[-+*/<>]|\.[a-z]+\.)\s*[()]\s*\)", new, _re.I):
                     sig["surplus_parenthesis_behind_the_operator_of_a_generic_spec"] = True
+        if case.get("fam") in ("streams", "streams-unit-end"):
+            # known finding KF-C08-3: a statement inside a nested DO carries the label of an enclosing labelled DO (and that label comes
+            # again to close the outer loop) - matched only if the stream without that statement is well nested
+            st_ = case["beh_extra"].get("stream", []) if "stream" in case.get("beh_extra", {}) else []
+            stack = []
+            for pos_, it in enumerate(st_):
+                lab_ = it[-2:] if it[-2:].isdigit() else ""
+                if lab_ and not it.startswith("dol") and any(x == "dol" + lab_ for x in stack[:-1]) and stack and stack[-1] != "dol" + lab_ \
+                        and stack[-1].startswith(("dol", "do")):
+                    rest = st_[:pos_] + st_[pos_ + 1:]
+                    sig["labelled_stmt_in_a_nested_do_carries_the_label_of_an_enclosing_do"] = _stream_well_nested(rest)
+                    break
+                if it == "do" or it.startswith("dol") or it in ("if", "ifn", "blk", "sel"):
+                    stack.append(it)
+                elif it in ("enddo", "endif", "endifn", "endblk", "endsel") and stack:
+                    stack.pop()
+                elif lab_ and it.startswith(("cont", "s", "enddo")):
+                    while stack and stack[-1] == "dol" + lab_:
+                        stack.pop()
         if case.get("fam") == "streams":
             # known finding KF-C08-1: an unlabelled DO closed by an END DO that carries the label of an enclosing labelled DO
             stack = []
@@ -645,6 +664,39 @@ def signature(prop, case, res, clause):
                     if stack:
                         stack.pop()
     return sig
+
+
+def _stream_well_nested(items):
+    """A small recogniser for the stream alphabet (used only to show that a known finding is the ONLY thing wrong with a stream):
+    openers / ENDs match, a labelled terminator closes every open DO with its label and only when that DO is on top, labels of
+    statements are unique unless they terminate."""
+    stack, used = [], set()
+    for it in items:
+        lab = it[-2:] if it[-2:].isdigit() else ""
+        if it in ("if", "ifn", "blk", "sel", "do") or it.startswith("dol"):
+            stack.append(it)
+        elif it in ("else", "case"):
+            if not stack or stack[-1] not in {"else": ("if", "ifn"), "case": ("sel",)}[it]:
+                return False
+        elif it in ("endif", "endifn", "endblk", "endsel", "enddo"):
+            want = {"endif": "if", "endifn": "ifn", "endblk": "blk", "endsel": "sel", "enddo": "do"}[it]
+            if not stack or stack[-1] != want:
+                return False
+            stack.pop()
+        elif lab:
+            if lab in used:
+                return False
+            used.add(lab)
+            if any(x == "dol" + lab for x in stack):
+                if stack[-1] != "dol" + lab:
+                    return False
+                while stack and stack[-1] == "dol" + lab:
+                    stack.pop()
+            elif it.startswith("enddo"):
+                return False
+        elif it == "endu":
+            return False
+    return not stack
 
 
 def run(prop, tier=None, replay=None):
